@@ -616,8 +616,8 @@ class GenFunctions(object):
         )
 
         fcn = cls.add_function(decl, splicer=splicer)
-        fcn.wrap.lua = False
-        fcn.wrap.python = False
+        # The accessors are wrapped where the variable is.
+        fcn.wrap.assign(c=var.wrap.c, fortran=var.wrap.fortran)
 
         # setter
         if ast.attrs["readonly"]:
@@ -649,8 +649,7 @@ class GenFunctions(object):
         fcn = cls.add_function(decl, attrs=attrs, splicer=splicer)
         # XXX - The function is not processed like other, so set intent directly.
         fcn.ast.params[0].metaattrs["intent"] = "in"
-        fcn.wrap.lua = False
-        fcn.wrap.python = False
+        fcn.wrap.assign(c=var.wrap.c, fortran=var.wrap.fortran)
 
     def instantiate_all_classes(self, node):
         """Instantate all class template_arguments recursively.
